@@ -40,6 +40,11 @@ def code_data_to_json(code_data: CodeData) -> dict:
 # https://datatracker.ietf.org/doc/html/rfc7159
 MIN_INTEGER, MAX_INTEGER = (-(2**53) + 1, (2**53) - 1)
 
+# Integers with more bits than this are written in hexadecimal: the conversion of huge
+# ints to and from decimal text is limited by sys.set_int_max_str_digits (640 digits can
+# always be converted), the conversion to and from hexadecimal is not
+MAX_DECIMAL_BITS = 2048
+
 
 def value_to_json(value: object) -> object:
     """
@@ -53,6 +58,8 @@ def value_to_json(value: object) -> object:
         return value
     if isinstance(value, int):
         if value < MIN_INTEGER or value > MAX_INTEGER:
+            if value.bit_length() > MAX_DECIMAL_BITS:
+                return {"int": hex(value)}
             return {"int": str(value)}
         return value
     if isinstance(value, str):
@@ -210,7 +217,10 @@ def constant_value_from_json(value: object) -> object:
     """
     if isinstance(value, dict):
         if "int" in value:
-            return int(value["int"])
+            text = value["int"]
+            if isinstance(text, str) and text.startswith(("0x", "-0x")):
+                return int(text, 16)
+            return int(text)
         if "float" in value:
             v = value["float"]
             if v == "inf":
